@@ -19,6 +19,7 @@ import Paroxy.Model.ParseGlue
 import Paroxy.Proofs.NodeSpan
 import Paroxy.Proofs.NodeSpanTree
 import Paroxy.Proofs.NodeCaptures
+import Paroxy.Proofs.WholeSpan
 import Paroxy.Proofs.FlatEntries
 import Paroxy.Props.C15
 namespace Paroxy.Props.C02
@@ -377,6 +378,52 @@ theorem C02_meta_program_once (ls : List (List Char)) (bs : List (List Char × S
       simp only [hp, Option.map_some, Option.some.injEq] at h
       subst h
       simp [hm]
+
+/-- **C02 (`whole_span` exists and spans first–last).** For a `Module` whose entries are well formed
+(`treeOk3`) and which has at least one positioned node, the `whole_span` pattern matches its dump; the
+first capture is `<line of the first positioned node>:`, the second one (when another positioned node
+follows) is the position text of the **last** positioned node in dump order, whose line is the suffix. -/
+theorem C02_whole_span_exists (t0 : Val) (r : List Char) (fs : List (List Char × Val))
+    (hok : treeOk3 (.node "Module".toList false r none fs) = true)
+    (hne : positionedNodes (.node "Module".toList false r none fs) ≠ []) :
+    ∃ n1 rest, firstPosSplit (entriesFields [] [] 0 fs) = some (n1, rest) ∧
+      wholeSpanMatch? (dumpP (hashFn t0) [] [] (.node "Module".toList false r none fs)) =
+        some (match lastPosOfEntries rest with
+          | some (n2, a2) => ([dec n1 ++ [':'], posText n2 a2], [dec n2])
+          | none => ([dec n1 ++ [':']], [])) := by
+  have hall : ∀ e ∈ entriesFields [] [] 0 fs, e.ok3 = true := by
+    intro e he
+    exact List.all_eq_true.mp hok e (by simp [entries, he])
+  have hne' : positionedOfEntries (entriesFields [] [] 0 fs) ≠ [] := by
+    simpa [positionedNodes, entries, positionedOfEntries] using hne
+  obtain ⟨n1, rest, hs⟩ := firstPosSplit_some_of_ne hne'
+  refine ⟨n1, rest, hs, ?_⟩
+  have hd : dumpP (hashFn t0) [] [] (.node "Module".toList false r none fs) =
+      "/_type=Module".toList :: (entriesFields [] [] 0 fs).flatMap (Entry.lines (hashFn t0)) := by
+    have := dumpPFields_eq_entries (hashFn t0) [] [] 0 fs
+    simp only [encNames, encPath] at this
+    simp [dumpP, typeLine, this]
+  rw [hd]
+  exact wholeSpanMatch_entries (hashFn t0) (eq_not_mem_hashFn t0) _ hall hs
+
+/-- **C02 (`meta/program` exactly once).** Under the same hypotheses `get_bindings` yields exactly one
+`whole_span` occurrence (translated to `meta/program` by the row `whole_span(:.+)?`), from the line of the
+first positioned node to the line of the last one. -/
+theorem C02_meta_program_exactly_once (t0 : Val) (r : List Char) (fs : List (List Char × Val))
+    (hok : treeOk3 (.node "Module".toList false r none fs) = true)
+    (hne : positionedNodes (.node "Module".toList false r none fs) ≠ []) :
+    ∃ label n1 n2, wholeSpanBindings? (dumpP (hashFn t0) [] [] (.node "Module".toList false r none fs)) =
+      some [(label, ⟨n1, n2, []⟩)] := by
+  obtain ⟨n1, rest, _, hm⟩ := C02_whole_span_exists t0 r fs hok hne
+  unfold wholeSpanBindings?
+  rw [hm]
+  cases hl : lastPosOfEntries rest with
+  | none => exact ⟨"whole_span".toList, n1, n1, by simp [posToSpan_single]⟩
+  | some p =>
+    obtain ⟨n2, a2⟩ := p
+    exact ⟨"whole_span:".toList ++ dec n2, n1, n2, by simp [posToSpan_whole]⟩
+
+example : treeOk3 sampleIf = true ∧ positionedNodes sampleIf ≠ [] := by decide
 
 example : wholeSpanBindings? (dumpP (hashFn sampleIf) [] [] sampleIf) =
     some [("whole_span:2".toList, ⟨1, 2, []⟩)] := by decide
